@@ -1,21 +1,27 @@
 /-
-  Obligation: the library's shared mutable state, computed over the SSA form of the whole module.
-  `evalWrites` is every write, in any function reachable from Evaluate, to memory the writing
-  function did not allocate itself; `evalDynamicCalls` the interface methods and API callbacks an
-  evaluation invokes; `evaluatorWrites` every function that assigns a field of the shared evaluator
-  or a package-level variable. Expected (see Expected.lean): an evaluation writes only per-call
-  objects, talks to the outside only through the channels the model's state `St` records, and the
-  evaluator is written only by the option `apply` methods during construction.
+  Obligation: the library's shared mutable state, computed over the SSA form of the whole module
+  (roles and types, never unexported names — see factgen/state.go). An evaluation writes nothing
+  that another evaluation can see; what it does write is exactly the per-call state of the model;
+  it talks to the outside only through the channels the model's state `St` records; the evaluator is
+  written only by the option `apply` methods during construction; no package variable is ever
+  written after initialisation.
 -/
 import LDEval.Generated.Facts
 import LDEval.Obligations.Expected
 
 namespace LD.Obligations
 
-theorem package_vars : Generated.packageVars = Expected.packageVars := rfl
-theorem state_fields : Generated.stateFields = Expected.stateFields := rfl
-theorem eval_writes : Generated.evalWrites = Expected.evalWrites := rfl
+theorem no_shared_writes : Generated.evalSharedWrites = [] := rfl
+theorem no_global_writes : Generated.globalWrites = [] := rfl
+theorem eval_private_writes : Generated.evalPrivateWrites = Expected.evalPrivateWrites := rfl
 theorem eval_dynamic_calls : Generated.evalDynamicCalls = Expected.evalDynamicCalls := rfl
 theorem evaluator_writes : Generated.evaluatorWrites = Expected.evaluatorWrites := rfl
+theorem evaluator_fields : Generated.evaluatorFieldTypes = Expected.evaluatorFieldTypes := rfl
+theorem scope_fields : Generated.scopeFieldTypes = Expected.scopeFieldTypes := rfl
+/-- The evaluator is assigned only inside `apply` methods of EvaluatorOption implementations. -/
+theorem evaluator_written_only_by_options : ∀ w ∈ Generated.evaluatorWrites,
+    w = "method apply of an EvaluatorOption implementation: store field of type bool" ∨
+    w = "method apply of an EvaluatorOption implementation: store field of type evaluation.BigSegmentProvider" ∨
+    w = "method apply of an EvaluatorOption implementation: store field of type ldlog.BaseLogger" := by decide
 
 end LD.Obligations
